@@ -514,3 +514,83 @@ func TestSharedValues(t *testing.T) {
 		},
 		Exec: execShared})
 }
+
+// ---------------------------------------------------------------- a client that reads its replies late
+
+type LateCase struct {
+	ValueKiB int `json:"value_kib"`
+	Gets     int `json:"gets"`
+	StallMs  int `json:"stall_ms"`
+}
+
+// execLate: a client pipelines reads of a large value - far more reply bytes than the socket buffers hold -
+// and does not read for several seconds. A client that is slow is still owed its replies: when it reads,
+// the stream is one complete well-formed reply per command, in order.
+func execLate(c LateCase) kit.Outcome {
+	if err := ensureServer(); err != nil {
+		return kit.Outcome{Fail: "infrastructure: " + err.Error()}
+	}
+	o := kit.Outcome{NonTrivial: c.ValueKiB*c.Gets >= 8192 && c.StallMs >= 5000, Labels: []string{"client-reads-late"}}
+	cn, err := server.Dial()
+	if err != nil {
+		return kit.Outcome{Fail: "infrastructure: " + err.Error()}
+	}
+	defer cn.Close()
+	nonceSeq++
+	key := fmt.Sprintf("late%d", nonceSeq)
+	val := bytes.Repeat([]byte("0123456789abcdef"), c.ValueKiB*64)
+	if _, err := cn.Do(20*time.Second, []byte("SET"), []byte(key), val); err != nil {
+		return kit.Outcome{Fail: "infrastructure: SET: " + err.Error()}
+	}
+	var stream []byte
+	for i := 0; i < c.Gets; i++ {
+		stream = append(stream, respx.EncodeCommand([][]byte{[]byte("GET"), []byte(key)})...)
+		stream = append(stream, respx.EncodeCommand([][]byte{[]byte("STRLEN"), []byte(key)})...)
+	}
+	nonce := "late-" + key
+	stream = append(stream, respx.EncodeCommand([][]byte{[]byte("PING"), []byte(nonce)})...)
+	if err := cn.Write(stream, 10*time.Second); err != nil {
+		return kit.Outcome{Inconclusive: true}
+	}
+	time.Sleep(time.Duration(c.StallMs) * time.Millisecond)
+	for i := 0; i < 2*c.Gets; i++ {
+		v, err := cn.Read(20 * time.Second)
+		if err != nil {
+			if server.WaitExit(300 * time.Millisecond) {
+				o.Fail = fmt.Sprintf("server died: %.300s", server.CrashReport())
+				stopServer()
+				return o
+			}
+			o.Fail = fmt.Sprintf("a client that started reading %d ms after pipelining %d commands (%d KiB of replies pending): reply %d: %v; undecoded bytes %.80q", c.StallMs, 2*c.Gets, c.ValueKiB*c.Gets, i, err, cn.R.Buffered())
+			return o
+		}
+		if i%2 == 0 {
+			if v.Kind != respx.Bulk || v.Null || !bytes.Equal(v.Str, val) {
+				o.Fail = fmt.Sprintf("a client that read late: reply %d (GET) is not the stored value: kind %c, %d bytes", i, rune(v.Kind), len(v.Str))
+				return o
+			}
+		} else if v.Kind != respx.Integer || v.Int != int64(len(val)) {
+			o.Fail = fmt.Sprintf("a client that read late: reply %d (STRLEN) is %.80s", i, v.String())
+			return o
+		}
+	}
+	v, err := cn.Read(10 * time.Second)
+	if err != nil || string(v.Str) != nonce {
+		o.Fail = fmt.Sprintf("a client that read late: after %d replies the sentinel's echo was expected: %v %.80s", 2*c.Gets, err, v.String())
+	}
+	_, _ = cn.DoS(5*time.Second, "DEL", key)
+	return o
+}
+
+func TestLateReader(t *testing.T) {
+	defer stopServer()
+	q := 0
+	if kit.Shard() == 2%kit.Shards() {
+		q = 1 // one case per quick run (it costs its stall time)
+	}
+	kit.Check(t, kit.Spec[LateCase]{Sub: "late", Quick: q, Thorough: 2, NoShrink: true,
+		Gen: func(t *rapid.T) LateCase {
+			return LateCase{ValueKiB: rapid.SampledFrom([]int{4096, 8192}).Draw(t, "kib"), Gets: rapid.IntRange(4, 8).Draw(t, "gets"), StallMs: rapid.SampledFrom([]int{5600, 7000}).Draw(t, "stall")}
+		},
+		Exec: execLate})
+}
